@@ -304,6 +304,8 @@ def run_property(prop, tier='quick', seed=0, out=sys.stdout):
             functions_under_contract=fn_summ,
             discharged_by_backend=by_solver,
             solver_seconds=round(solver_time, 2),
+            slowest=[dict(obligation=o['name'], seconds=o['result']['seconds'], solver=o['result']['solver'])
+                     for o in sorted(allobs, key=lambda o: -o['result']['seconds'])[:5]],
             obligations_by_kind=count_by(allobs, 'kind'),
             vacuity_covers=dict(paths=len(covers), not_refuted=covers_ok,
                                 rule="per path, the hypotheses with goal False are given to z3 (3 s); a function all of whose paths are refuted is a checker error; refuted single paths are branches that the quantifier-free pruning could not exclude"),
